@@ -106,6 +106,8 @@ def split_targs(s):
 class Types:
     """C++ type string -> C type; generates vector typedefs and record structs on demand."""
 
+    string_as_vector = False
+
     def __init__(self, typemap=None, records=None):
         self.typemap = dict(typemap or {})      # c++ spelled type -> C type name (opaque tokens etc.)
         self.records = dict(records or {})      # c++ record name -> C struct name (fields extracted from AST)
@@ -136,6 +138,14 @@ class Types:
             t = t[:-2].strip()
         if t.endswith('&'):
             t = t[:-1].strip()
+        if self.string_as_vector and t in ('std::string', 'std::basic_string<char>', 'basic_string<char>', 'string'):
+            self.vecs['vec_char'] = 'char'
+            self.fired['type:string-as-byte-vector'] += 1
+            return 'vec_char'
+        m0 = re.match(r'^__gnu_cxx::__alloc_traits<std::allocator<(.*)>, (.*)>::value_type$', t)
+        if m0:
+            # sugar clang prints for `auto& x = vec[i]`
+            return self._c1(m0.group(2))
         if t in self.typemap:
             self.fired['type:typemap'] += 1
             return self.typemap[t]
@@ -144,7 +154,7 @@ class Types:
         if t.endswith('*'):
             inner = self._c1(t[:-1])
             return (inner + ' *') if inner else None
-        m = re.match(r'^(?:std::)?(vector|deque)<(.*)>$', t)
+        m = re.match(r'^(?:std::|nifly::)?(vector|deque|NiVector|NiVectorBase)<(.*)>$', t)
         if m:
             args = split_targs(m.group(2))
             el = self._c1(args[0])
@@ -177,7 +187,9 @@ class Types:
                 t = t[:-1].strip()
             elif ptr:
                 continue
-            if re.match(r'^(std::)?(vector|deque)<', t):
+            if re.match(r'^(std::|nifly::)?(vector|deque|NiVector|NiVectorBase)<', t):
+                return True
+            if self.string_as_vector and t in ('std::string', 'std::basic_string<char>', 'basic_string<char>', 'string'):
                 return True
         return False
 
@@ -305,6 +317,9 @@ class Printer:
                 # scalar parameter of an abstracted function: a ghost global gh_p_<name> (declared in the unit prelude, havocked by the harness)
                 self.fire('abs:scalar-parameter-as-ghost')
                 return 'gh_p_' + nm
+            if self.fragment and rd['kind'] == 'VarDecl' and nm in self.unit.get('globals', []):
+                self.fire('expr:global-constant')
+                return nm
             if self.fragment and rd['id'] not in self.local_ids and rd['kind'] in ('VarDecl', 'ParmVarDecl'):
                 if rd['id'] not in self.freevars:
                     q = rd['type']['qualType']
@@ -542,6 +557,12 @@ class Printer:
             if m == 'pop_back':
                 self.fire('vec:pop_back')
                 return '(%s.size--)' % os_
+            if m == 'erase' and len(args) == 1 and Types.strip(args[0].get('type', {}).get('desugaredQualType') or args[0].get('type', {}).get('qualType', '')) in SCALARS:
+                # NiVector::erase(index)
+                self.fire('vec:erase-at-index')
+                fn = '%s_erase_at' % ct
+                self.called[fn] += 1
+                return '%s(&%s, %s)' % (fn, os_, self.e(args[0]))
             if m == 'erase' and len(args) == 1:
                 idx = self.iter_index(args[0], o)
                 self.fire('vec:erase-at')
@@ -653,6 +674,21 @@ class Printer:
         if opn == 'operator[]' and self.is_vec_expr(I[1]):
             self.fire('vec:subscript')
             return '%s.data[%s]' % (self.e(I[1]), self.e(I[2]))
+        if opn == 'operator=' and self.T.string_as_vector and self.is_vec_expr(I[1]):
+            r0 = self.skip(I[2])
+            while r0.get('kind') in ('ImplicitCastExpr', 'CXXBindTemporaryExpr', 'MaterializeTemporaryExpr', 'CXXConstructExpr') and r0.get('inner'):
+                r0 = r0['inner'][0]
+            if r0.get('kind') == 'CXXMemberCallExpr' and r0['inner'][0].get('name') == 'substr':
+                src = r0['inner'][0]['inner'][0]
+                while src.get('kind') == 'ImplicitCastExpr':
+                    src = src['inner'][0]
+                if self.e(src) == self.e(I[1]):
+                    # s = s.substr(pos, n)
+                    a = [x for x in r0['inner'][1:] if x.get('kind') != 'CXXDefaultArgExpr']
+                    self.fire('str:substr-self-assign')
+                    self.called['vec_char_substr_self'] += 1
+                    return 'vec_char_substr_self(&%s, %s, %s)' % (self.e(I[1]), self.e(a[0]), self.e(a[1]))
+            self.brk('string assignment form', n)
         if opn == 'operator=':
             if self.is_vec_expr(I[1]):
                 return self.vec_assign(I[1], I[2])
